@@ -24,6 +24,7 @@
 (*                    UnitAttached RangeDenotesMembers PhaseKeywords       *)
 (*   EndVerdict       EachSpeciesOnce EachPhaseOnce EachReactionOnce       *)
 (*                    EachBepOnce EachInteractionOnce UniqueIds            *)
+(*                    DocumentsAgreeOnBeps                                 *)
 (*                                                                         *)
 (* Numbers are Dec values.  YAML carries full precision: 8 significant     *)
 (* digits are demanded; CTI prints rate parameters with 6 digits: 5 are    *)
@@ -220,7 +221,11 @@ EndVerdict(st) ==
    If(NoDup(st.sp) /\ SeqSet(st.sp) = SeqSet(x.species), "EachSpeciesOnce")
    \cup If(NoDup(st.ph) /\ SeqSet(st.ph) = SeqSet(x.phases), "EachPhaseOnce")
    \cup If(Len(st.rid) = x.nrx, "EachReactionOnce")
-   \cup If(Len(st.bid) = x.nbeps, "EachBepOnce")
+   \* every BEP object of the model is written exactly once (bk = which object each entry is)
+   \cup If(Len(st.bid) = x.nbeps /\ NoDup(st.bk) /\ SeqSet(st.bk) = 1..x.nbeps, "EachBepOnce")
+   \* the CTI file and the YAML file written before it state the same BEPs under the same ids
+   \cup If((st.fmt = "cti" /\ st.prev.ok) =>
+             {<<st.bk[i], st.bid[i]>> : i \in 1..Len(st.bk)} = st.prev.pairs, "DocumentsAgreeOnBeps")
    \cup If(Len(st.iid) = x.ninter, "EachInteractionOnce")
    \cup If(NoDup(st.rid) /\ NoDup(st.bid) /\ NoDup(st.iid), "UniqueIds")
 
